@@ -5,7 +5,7 @@
   `Good` (stored reports of indexed manifests are the fresh ones) is preserved
   by fault-free calls and by faulty calls on manifests not yet indexed.
 -/
-import ClairModel.Proofs.IndexerRun
+import ClairModel.Proofs.IndexerScans
 
 namespace ClairModel.Indexer
 
@@ -311,27 +311,33 @@ theorem stateFn_ff (hff : FF o) (w : W) (c : Ctl) (hc : Clean w.e) (hi : Inv sem
     the manifest row exists. -/
 theorem persist_ff (hff : FF o) (m : Manifest) (w : W) (c : Ctl) (next : CState) (carry : Option ErrClass)
     (hc : Clean w.e) (hm : m ∈ w.st.manifests) :
-    ∃ e st', Clean e ∧ e.fetched = w.e.fetched ∧ w.st.setIndexReport m c.report = some st' ∧
+    ∃ e st', Clean e ∧ e.fetched = w.e.fetched ∧ e.scans = w.e.scans ∧ w.st.setIndexReport m c.report = some st' ∧
       persistAndAdvance o m w c next carry =
         (⟨st', e⟩, if next = .terminal then c else setState c next, carry, if next = .terminal then true else carry.isSome) := by
   obtain ⟨e, hcall, hcl, hfe⟩ := call_ff hff w hc 'R'
-  refine ⟨e, { w.st with reports := (m, c.report) :: w.st.reports }, hcl, hfe, by simp [Store.setIndexReport, hm], ?_⟩
+  have hsc : e.scans = w.e.scans := by have := call_scans o w 'R'; rw [hcall] at this; exact this
+  refine ⟨e, { w.st with reports := (m, c.report) :: w.st.reports }, hcl, hfe, hsc, by simp [Store.setIndexReport, hm], ?_⟩
   unfold persistAndAdvance
   simp only [hcall, if_true, Store.setIndexReport, hm]
   split <;> rfl
 
-/-- A fault-free run from a loop head ends with a nil error and the fresh report. -/
+/-- A fault-free run from a loop head ends with a nil error, a consistent scan
+    log, and — when the stored report of an already indexed manifest is the
+    fresh one — the fresh report. -/
 theorem runLoop_ff (hff : FF o) (hne : cfg.scanners ≠ []) :
     ∀ (fuel : Nat) (w : W) (c : Ctl), Clean w.e → Inv sem w.st → HeadCore sem cfg m st0 w.st c →
-      (c.cur = .checkManifest → w.st.manifestScanned m cfg.scanners = true → w.st.report? m = some (freshReport sem cfg m)) →
       (c.cur = .scanLayers → ∀ l, l ∈ m → ∀ s, s ∈ cfg.scanners → (l, s) ∉ w.st.scannedLayer → l ∈ w.e.fetched) →
       (match c.cur with
         | .checkManifest => 7 | .fetchLayers => 6 | .scanLayers => 5 | .coalesce => 4
         | .indexManifest => 3 | .indexFinished => 2 | _ => 0) ≤ fuel + 1 →
-      (runLoop sem o cfg m fuel w c).2.2 = none ∧ (runLoop sem o cfg m fuel w c).2.1.report = freshReport sem cfg m
-  | 0, w, c, _, _, h, _, _, hfuel => by
+      ScansOK w.st w.e.scans →
+      (runLoop sem o cfg m fuel w c).2.2 = none ∧
+      ScansOK (runLoop sem o cfg m fuel w c).1.st (runLoop sem o cfg m fuel w c).1.e.scans ∧
+      ((c.cur = .checkManifest → w.st.manifestScanned m cfg.scanners = true → w.st.report? m = some (freshReport sem cfg m)) →
+        (runLoop sem o cfg m fuel w c).2.1.report = freshReport sem cfg m)
+  | 0, w, c, _, _, h, _, hfuel, _ => by
     rcases h.curFn with hc | hc | hc | hc | hc | hc <;> rw [hc] at hfuel <;> simp at hfuel
-  | fuel + 1, w, c, hcl, hi, h, hgood, hfet, hfuel => by
+  | fuel + 1, w, c, hcl, hi, h, hfet, hfuel, hsok => by
     have hcur : c.cur ≠ .terminal := by
       rcases h.curFn with hc | hc | hc | hc | hc | hc <;> simp [hc]
     simp only [runLoop, hcur, if_false]
@@ -339,11 +345,13 @@ theorem runLoop_ff (hff : FF o) (hne : cfg.scanners ≠ []) :
     have hrep : c.cur = .checkManifest → w.st.manifestScanned m c.vs = true → (w.st.report? m).isSome := by
       intro hc hsc
       rw [h.initVs hc] at hsc
-      rw [hgood hc hsc]; rfl
+      obtain ⟨s, hs⟩ := List.exists_mem_of_ne_nil _ hne
+      exact hi.manifestReport m s ((Store.manifestScanned_iff _ _ _).1 hsc s hs)
     obtain ⟨hnone, hcl1, hfet1⟩ := stateFn_ff hff w c hcl hi h hrep hfet
-    generalize stateFn sem o cfg m c.cur w c = res at fp hnone hcl1 hfet1
+    have hsok1 := stateFn_scansOK (o := o) w c hi h hnone hsok
+    generalize stateFn sem o cfg m c.cur w c = res at fp hnone hcl1 hfet1 hsok1
     obtain ⟨w1, c1, next, r⟩ := res
-    simp only at hnone hcl1 hfet1
+    simp only at hnone hcl1 hfet1 hsok1
     subst hnone
     simp only [hcl1.1, Bool.false_eq_true, if_false]
     -- the manifest row exists by now
@@ -363,11 +371,14 @@ theorem runLoop_ff (hff : FF o) (hne : cfg.scanners ≠ []) :
           show next ≠ .checkManifest
           rw [hs, hc]; simp [succState]
       · exact fp.persisted hc
-    obtain ⟨e2, st2, hcl2, hfe2, hset, hpa⟩ := persist_ff hff m w1 c1 next none hcl1 hm1
+    obtain ⟨e2, st2, hcl2, hfe2, hsc2, hset, hpa⟩ := persist_ff hff m w1 c1 next none hcl1 hm1
     rw [hpa]
+    have hle2 := Store.le_setIndexReport hset
+    have hsok2 : ScansOK st2 e2.scans := by rw [hsc2]; exact hsok1.mono hle2
     by_cases hn : next = .terminal
     · simp only [hn, if_true]
-      refine ⟨(by first | rfl | trivial), ?_⟩
+      refine ⟨(by first | rfl | trivial), hsok2, ?_⟩
+      intro hgood
       rcases fp.okTerminal rfl hn with ⟨hc, hst, hsc, hrp⟩ | hfin
       · simp only at hst hsc hrp
         rw [h.initVs hc] at hsc
@@ -380,7 +391,6 @@ theorem runLoop_ff (hff : FF o) (hne : cfg.scanners ≠ []) :
     · simp only [hn, if_false, Option.isSome_none]
       obtain ⟨hcore, hsm1⟩ := fp.okNext rfl hn
       simp only at hcore hsm1
-      have hle2 := Store.le_setIndexReport hset
       have hsm2 : st2.scannedManifest = w1.st.scannedManifest := by
         obtain ⟨_, rfl⟩ := Store.setIndexReport_eq hset; rfl
       have hsl2 : st2.scannedLayer = w1.st.scannedLayer := by
@@ -388,10 +398,12 @@ theorem runLoop_ff (hff : FF o) (hne : cfg.scanners ≠ []) :
       have hcur2 : (setState c1 next).cur = next := rfl
       have hsucc := fp.succ rfl hn
       simp only at hsucc
-      apply runLoop_ff hff hne fuel ⟨st2, e2⟩ (setState c1 next) hcl2 (Store.inv_setIndexReport (fp.step.inv hi) hset)
-        (hcore.mono hle2 hsm2)
-      · intro hc2; rw [hcur2, hsucc] at hc2
-        rcases h.curFn with hc | hc | hc | hc | hc | hc <;> rw [hc] at hc2 <;> simp [succState] at hc2
+      have hnc : (setState c1 next).cur ≠ .checkManifest := by
+        rw [hcur2, hsucc]
+        rcases h.curFn with hc | hc | hc | hc | hc | hc <;> rw [hc] <;> simp [succState]
+      have ih := runLoop_ff hff hne fuel ⟨st2, e2⟩ (setState c1 next) hcl2 (Store.inv_setIndexReport (fp.step.inv hi) hset)
+        (hcore.mono hle2 hsm2) ?_ ?_ hsok2
+      · exact ⟨ih.1, ih.2.1, fun _ => ih.2.2 (fun hh => absurd hh hnc)⟩
       · intro hc2 l hl s hs hun
         rw [hcur2, hsucc] at hc2
         have hcf : c.cur = .fetchLayers := by
@@ -433,9 +445,10 @@ theorem index_ff_result (sem : Sem) (o : Oracle) (cfg : Cfg) (m : Manifest) (st 
     (index sem o cfg m st false).st.manifestScanned m cfg.scanners = true ∧
     (index sem o cfg m st false).st.report? m = some (freshReport sem cfg m) := by
   have hsp := index_spec sem o cfg m st false hg.inv
-  have hrun := runLoop_ff (sem := sem) (o := o) (cfg := cfg) (m := m) (st0 := st) hff hg.nonempty fuel ⟨st, {}⟩
+  have hrun0 := runLoop_ff (sem := sem) (o := o) (cfg := cfg) (m := m) (st0 := st) hff hg.nonempty fuel ⟨st, {}⟩
     { vs := cfg.scanners, report := {}, cur := .checkManifest } ⟨rfl, rfl⟩ hg.inv (headCore_init sem cfg m st)
-    (fun _ hsc => hg.reports m hsc) (fun hh => by cases hh) (by simp [fuel])
+    (fun hh => by cases hh) (by simp [fuel]) ⟨List.nodup_nil, fun _ hx => by cases hx⟩
+  have hrun := And.intro hrun0.1 (hrun0.2.2 (fun _ hsc => hg.reports m hsc))
   have herr : (index sem o cfg m st false).err = none := by
     unfold index
     simp only [Bool.false_eq_true, if_false]
